@@ -303,6 +303,32 @@ func runC07(c *core.Ctx) core.Meta {
 		}
 	}
 
+	// ---------------- R07.10 the register file serves every access ----------------
+	st10 := c.Rule("R07.10", "the timing register file performs every access it is given: on every path through SimpleRegisterFile.Read and SimpleRegisterFile.Write that returns, the bytes are copied (a must-pass of the copy between the storage and the access's data). RegisterAccess is passed by value: a path that declines an access and reports it in access.OK reports it to nobody - the write is lost and the read returns the caller's zeroed buffer. A range guard that is off by one declines exactly the accesses that end at the last byte of the file (the top wavefront's last register on lane 63)", 2)
+	for _, name := range []string{"SimpleRegisterFile.Read", "SimpleRegisterFile.Write"} {
+		fn := c.MustFunc("R07.10", cuPkg, name)
+		if fn == nil {
+			continue
+		}
+		c.MarkAnalysed(fn)
+		st10.Instances++
+		g := core.BuildGraph(fn, 1, func(cal *ssa.Function) bool { return cal.Pkg == fn.Pkg })
+		var leak *core.Node
+		okW := g.Walk([]core.State{{N: g.Entry}}, core.WalkOpts{ForwardOnly: true, Stop: func(n *core.Node) bool {
+			call, ok := n.Instr.(*ssa.Call)
+			return ok && core.IsBuiltin(call, "copy")
+		}}, func(x core.State) {
+			if _, isRet := x.N.Instr.(*ssa.Return); isRet && x.N.Frame.Parent == nil && leak == nil {
+				leak = x.N
+			}
+		})
+		st10.Ob(okW && leak == nil)
+		st10.Sample("%s: every returning path copies the bytes: %v", name, leak == nil)
+		if leak != nil {
+			c.ReportAt("R07.10", fn, leak.Instr.Pos(), "access-declined-silently:"+name, name+" can return without copying: the access is dropped (its OK flag is set on a by-value copy that nobody sees), a write is lost and a read returns zeros; with a guard `offset+size < len(storage)` that is every access ending at the last byte of the register file")
+		}
+	}
+
 	// ---------------- R07.9 the 64-bit view of an operand reads four bytes only for a one-dword operand ----------------
 	st9 := c.Rule("R07.9", "ReadOperand returns the low 64 bits of an operand in both register stores (the timing store pads the accessor's bytes to eight and reads them whole): in the emulation store, a function with a uint64 result that takes its value from a 32-bit read of a register-file slice (binary.LittleEndian.Uint32 / insts.BytesToUint32, widened) does so only on paths that found the operand's byte width to be 4 (w == 4, w <= 4, w < 8 or the complementary edge of the opposite test). A 32-bit read chosen for every width but 8 drops bits 32..63 of operands of three and more registers (the base of s_buffer_load: a buffer above 4 GiB)", 1)
 	for _, fn := range c.SrcFuncs(emuPkg) {
